@@ -360,6 +360,8 @@ theorem lex_layerLoop (dp : Path) (dest : Str) (o : Opts) (hd : CleanAbs dest) (
       fun st' h' => lex_layerLoop dp dest o hd hdp es st' (fun x hx => hsym x (by simp [hx])) h'
     have hst1 : LStOK dp dest { st0 with size := st0.size + e.size } := ⟨hst0.dirs, hst0.tmp, hst0.staged⟩
     simp only [layerLoop]
+    split
+    · exact hrec _ hst1
     refine bindL dp _ _ (lex_stage dp dest o e _ (clean e.name) hd hdp hst1) ?_
     intro stR hstR
     split
